@@ -115,13 +115,33 @@ func c13Check(c *fw.Ctx, layout geom.Layout, pts []ipt, via int, class string) {
 		flat = c13Buf[:len(flat):len(flat)]
 		c.Count("inputs_passed_in_a_reused_buffer")
 	}
-	vias := []string{"ConvexHullFlat", "ConvexHull(MultiPoint)", "ConvexHull(LineString)", "ConvexHull(MultiLineString)", "ConvexHull(Polygon of several rings)", "ConvexHull(MultiPolygon)"}
+	vias := []string{"ConvexHullFlat", "ConvexHull(MultiPoint)", "ConvexHull(LineString)", "ConvexHull(MultiLineString)", "ConvexHull(Polygon of several rings)", "ConvexHull(MultiPolygon)", "ConvexHull(Point)", "ConvexHull(LinearRing)", "ConvexHull(Polygon of one ring)"}
+	if len(pts) == 1 && c.R.Bool() {
+		via = 6
+	} else if len(pts) >= 3 && c.R.Chance(1, 8) {
+		// the points as one ring that is not closed; with extra ordinates, the last
+		// coordinate's final two ordinates are made equal to the first position (a
+		// coincidence of numbers, nothing else)
+		via = 7 + c.R.Intn(2)
+		if stride > 2 {
+			n := len(pts)
+			if stride == 3 {
+				flat[(n-1)*stride+1] = flat[0]
+				pts[n-1].y = pts[0].x
+			}
+			flat[(n-1)*stride+stride-2+0] = flat[0]
+			flat[(n-1)*stride+stride-1] = flat[1]
+			if stride == 3 {
+				flat[(n-1)*stride+1] = flat[0]
+			}
+		}
+	}
 	// the same points in any container: split into parts at random places
 	if via < 3 && len(pts) >= 2 && c.R.Chance(1, 4) {
 		via = 3 + c.R.Intn(3)
 	}
 	var cuts []int
-	if via >= 3 {
+	if via >= 3 && via <= 5 {
 		for i := 1; i < len(pts); i++ {
 			if c.R.Chance(1, 3) {
 				cuts = append(cuts, i*stride)
@@ -179,6 +199,12 @@ func c13Check(c *fw.Ctx, layout geom.Layout, pts []ipt, via int, class string) {
 			res = xy.ConvexHull(geom.NewMultiLineStringFlat(layout, flat, cuts))
 		case 4:
 			res = xy.ConvexHull(geom.NewPolygonFlat(layout, flat, cuts))
+		case 6:
+			res = xy.ConvexHull(geom.NewPointFlat(layout, flat))
+		case 7:
+			res = xy.ConvexHull(geom.NewLinearRingFlat(layout, flat))
+		case 8:
+			res = xy.ConvexHull(geom.NewPolygonFlat(layout, flat, []int{len(flat)}))
 		default:
 			var endss [][]int
 			for i := 0; i < len(cuts); {
